@@ -64,7 +64,7 @@ class Sh:
 def gen_val(ty):
     return {"u8": "s.u8()", "i8": "s.i8()", "bool": "s.bool()", "u16": "s.u16()", "F": "F(s.u8())", "Po": "Po(s.u8())", "&'static u8": "&REFS[s.below(2) as usize]",
             "[u8; 2]": "[s.u8(), s.u8()]", "core::marker::PhantomData<u16>": "core::marker::PhantomData", "(u8, i8)": "(s.u8(), s.i8())",
-            "(F, F)": "(F(s.u8()), F(s.u8()))"}.get(ty) or \
+            "(F, F)": "(F(s.u8()), F(s.u8()))", "f32": "(if s.bool() { f32::NAN } else { s.u8() as f32 })", "A::Out": "PAll(s.u8())"}.get(ty) or \
         {"A": "Gen::gen(s)", "&'a u8": "&REFS[s.below(2) as usize]", "&'a A": "&REFS[s.below(2) as usize]", "[u8; N]": "[s.u8(), s.u8()]", "core::marker::PhantomData<A>": "core::marker::PhantomData"}[ty]
 
 
@@ -116,11 +116,19 @@ def build(name, sh, flavour):
               '    assert!(!s1.overflow && s2.len > 0, "harness-sink-capacity");', '    assert!(s1.same(&s2), "debug-output");']
     else:
         if "PartialEq" in traits:
-            b += ['    cover!(x == y, "equal-pair");', '    assert!((x == y) == (tx == ty), "eq-like-std");', '    assert!((x != y) == (tx != ty), "ne-like-std");']
+            b += ['    cover!(x == y, "equal-pair");', '    assert!((x == y) == (tx == ty), "eq-like-std");', '    assert!((x != y) == (tx != ty), "ne-like-std");',
+                  # the same object on both sides (a non-reflexive field such as NaN must stay unequal to itself, as with the std derive)
+                  '    assert!((x == x) == (tx == tx), "eq-self-like-std");']
+        floats = [n for v in sh.variants for n, t in v[2] if t == "f32"]
+        if floats:
+            # values with a NaN are not `==` to their own copy: compare copies field by field, floats by their bits
+            others = [n for v in sh.variants for n, t in v[2] if t != "f32"]
+            src += "fn same(p: &twin::%s, q: &twin::%s) -> bool { %s }\n" % (tu, tu, " && ".join(["p.%s.to_bits() == q.%s.to_bits()" % (n, n) for n in floats] + ["p.%s == q.%s" % (n, n) for n in others]))
+        eqv = (lambda l, r: "same(&%s, &%s)" % (l, r)) if floats else (lambda l, r: "%s == %s" % (l, r))
         if "Clone" in traits and "PartialEq" in traits:
-            b += ['    assert!(tw(&x.clone()) == tx.clone(), "clone-like-std");', "    let mut z = mk(s);", "    z.clone_from(&x);", '    assert!(tw(&z) == tx, "clone_from-like-std");']
+            b += ['    assert!(%s, "clone-like-std");' % eqv("tw(&x.clone())", "tx.clone()"), "    let mut z = mk(s);", "    z.clone_from(&x);", '    assert!(%s, "clone_from-like-std");' % eqv("tw(&z)", "tx")]
         if "Default" in traits and "PartialEq" in traits:
-            b += ['    assert!(tw(&<%s as Default>::default()) == <twin::%s as Default>::default(), "default-like-std");' % (tu, tu)]
+            b += ['    assert!(%s, "default-like-std");' % eqv("tw(&<%s as Default>::default())" % tu, "<twin::%s as Default>::default()" % tu)]
         if "PartialOrd" in traits:
             b += ['    assert!(x.partial_cmp(&y) == tx.partial_cmp(&ty), "partial_cmp-like-std");', '    assert!((x < y) == (tx < ty) && (x >= y) == (tx >= ty), "lt-ge-like-std");']
         if "Ord" in traits:
@@ -136,6 +144,33 @@ def build(name, sh, flavour):
     return kani_runner.Program(name, src, "%s|%s" % (sh.sid, flavour), desc, nontrivial=nv >= 2 or any(len(v[2]) >= 2 for v in sh.variants))
 
 
+def build_unsized(name, kind, flavour):
+    """a struct whose last field is unsized (generic `A: ?Sized` instantiated with a slice through an unsizing coercion): the standard derives accept it for
+    Debug and the comparison / Hash traits (Clone and Default need Sized)"""
+    traits = ["Debug"] if flavour == "debug" else ["PartialEq", "Eq", "PartialOrd", "Ord", "Hash"]
+    ety = "F" if flavour == "debug" else "u8"
+    gen = "F(s.u8())" if flavour == "debug" else "s.u8()"
+    body = "{ pub a: %s, pub b: A }" % ety if kind == "named" else "(pub %s, pub A);" % ety
+    mk = (lambda p: "%s { a: %s, b: [%s, %s] }" % (p, gen, gen, gen)) if kind == "named" else (lambda p: "%s(%s, [%s, %s])" % (p, gen, gen, gen))
+    cp = (lambda p, v: "%s { a: %s.a, b: %s.b }" % (p, v, v)) if kind == "named" else (lambda p, v: "%s(%s.0, %s.1)" % (p, v, v))
+    desc = "shape=unsized-tail-%s traits=%s flavour=%s" % (kind, "+".join(traits), flavour)
+    src = e1.HEADER.format(pid=PID, name=name, desc=desc)
+    src += "#[derive_ex(%s)]\npub struct T<A: ?Sized> %s\n\npub mod twin {\n    use crate::support::*;\n    #[derive(%s)]\n    pub struct T<A: ?Sized> %s\n}\n\n" % (
+        ", ".join(traits), body, ", ".join(traits), body)
+    b = ["    let (x0, y0) = (%s, %s);" % (mk("T"), mk("T")), "    let (tx0, ty0) = (%s, %s);" % (cp("twin::T", "x0"), cp("twin::T", "y0")),
+         "    // unsizing coercions: the values compared below have an unsized last field", "    let (x, y): (&T<[%s]>, &T<[%s]>) = (&x0, &y0);" % (ety, ety),
+         "    let (tx, ty): (&twin::T<[%s]>, &twin::T<[%s]>) = (&tx0, &ty0);" % (ety, ety)]
+    if flavour == "debug":
+        b += ["    use core::fmt::Write;", "    let mut s1 = Sink::new();", "    let mut s2 = Sink::new();", '    let _ = write!(s1, "{:?}", x);', '    let _ = write!(s2, "{:?}", tx);',
+              "    let _ = (y, ty);", '    assert!(!s1.overflow && s2.len > 0, "harness-sink-capacity");', '    assert!(s1.same(&s2), "debug-output");']
+    else:
+        b += ['    cover!(x == y, "equal-pair");', '    assert!((x == y) == (tx == ty), "eq-like-std");', '    assert!(x.partial_cmp(y) == tx.partial_cmp(ty), "partial_cmp-like-std");',
+              '    assert!(x.cmp(y) == tx.cmp(ty), "cmp-like-std");', "    let mut hx = Rec::new();", "    Hash::hash(x, &mut hx);", "    let mut ht = Rec::new();", "    Hash::hash(tx, &mut ht);",
+              '    assert!(hx.same(&ht), "hash-feed-like-std");']
+    src += "pub fn check<S: Src>(s: &mut S) {\n%s\n}\n\n" % "\n".join(b) + e1.harness(unwind=66 if flavour == "debug" else 18)
+    return kani_runner.Program(name, src, "unsized-tail-%s|%s" % (kind, flavour), desc, nontrivial=True)
+
+
 def shapes(tier, rnd):
     out = []
     S = lambda sid, vk, fs, **kw: Sh(sid, "struct", [(None, vk, fs)], **kw)
@@ -148,6 +183,8 @@ def shapes(tier, rnd):
         out.append(S("named%d" % n, "named", [("f%d" % i, t) for i, t in enumerate(tys)]))
     out.append(S("named-tuplefield", "named", [("a", "(u8, i8)"), ("b", "bool")]))
     out.append(S("partial-only", "named", [("a", "Po"), ("b", "u8")], traits=["Clone", "PartialEq", "PartialOrd"]))
+    out.append(S("float-field", "named", [("a", "f32"), ("b", "u8")], traits=["Clone", "PartialEq", "PartialOrd", "Default"]))
+    out.append(S("assoc-type-shorthand", "named", [("a", "A::Out"), ("b", "u8")], generics_decl="<A: HasOut>", generics_use="<PAll>"))
     out.append(S("raw-ident-fields", "named", [("r#type", "u8"), ("r#match", "i8")]))
     out.append(S("raw-ident-type", "tuple", [(None, "u8")], name="r#struct"))
     out.append(S("repr-c", "named", [("a", "u8"), ("b", "u16")], attrs=["#[repr(C)]", "/// documented"]))
@@ -197,12 +234,16 @@ def run(tier):
                 continue
             seen.add(p.sig)
             progs.append(p)
+    for kind in ("named", "tuple"):
+        for flavour in ("values", "debug"):
+            progs.append(build_unsized("p%05d" % len(progs), kind, flavour))
     return e1.finish(
         PID, tier, progs, t0,
         rule="one Kani harness per (type shape, flavour): the type is written twice, derive_ex and std derive; all field values and variant selectors of two (three) values symbolic; "
              "Clone/clone_from/Default/==/!=/partial_cmp/</>=/cmp must agree with the twin for all values, == must imply equal Hash feeds, and in the debug flavour `{:?}` must print the same bytes",
         bounds="unit/tuple/named structs with 0..4 fields, enums with 0..5 variants of mixed kinds, lifetime / type / const parameters with defaults and where-clauses (instantiated concretely), "
-               "raw identifiers for fields, variants and the type, repr(C) / non_exhaustive / doc attributes; field types u8,i8,bool,u16,(u8,i8),Po,F,&'a u8,[u8;N],PhantomData",
-        outside="`the program compiles` is rustc's verdict (reported, not solver-decided); unsized last fields; explicit discriminants; `{:#?}`; recursive types",
+               "an unsized last field (`A: ?Sized` instantiated with a slice) for Debug and the comparison / Hash traits, raw identifiers for fields, variants and the type, "
+               "repr(C) / non_exhaustive / doc attributes; field types u8,i8,bool,u16,(u8,i8),Po,F,&'a u8,[u8;N],PhantomData",
+        outside="`the program compiles` is rustc's verdict (reported, not solver-decided); unsized last fields other than a slice behind a generic parameter (`str`, `dyn Trait`); explicit discriminants; `{:#?}`; recursive types",
         functions=["every method of the Clone, Default, PartialEq, PartialOrd, Ord, Hash, Debug impls generated by derive_ex"],
         harness_timeout="900s", batch=80)
